@@ -37,6 +37,13 @@ main(int argc,char** argv) {
     }
 
     print_version(argv[0]);
+    // The options are mutually exclusive: reject the command line before anything is computed or written.
+
+    if (cmd.num_options()>1) {
+        std::cerr << "Error: providing mutually exclusive options to " << argv[0] << "!" << std::endl;
+        return 1;
+    }
+
     cmd.print();
 
     constexpr char geomfileopt[]       = "geometry file";
